@@ -59,6 +59,8 @@ def _yielder(sched, yields, tag=""):
 
 
 def _env(sched, rc=None, fc=None, hints=None, packages=None, yields=None, sync=(), tag=""):
+    if not tag or tag.startswith("e0/"):
+        _I.reset_evaluators()  # once per explored execution: every schedule starts from fresh evaluator instances
     yields = {"*": 1} if yields is None else yields
     return _I.Env(rc=rc, fc=fc, hints=hints, packages=packages, yielder=_yielder(sched, yields, tag), sync=sync, tag=tag)
 
